@@ -417,7 +417,9 @@ class Charge:
     def __array__(self, dtype: np.dtype | None = None):
         if not isinstance(self._array, np.ndarray):
             raise TypeError("Array not initialized.")
-        return np.asarray(self._array, dtype=dtype)
+
+        # Note: property 'array' is used, it takes the charge packets into account
+        return np.asarray(self.array, dtype=dtype)
 
     @property
     def frame(self) -> "pd.DataFrame":
